@@ -57,6 +57,9 @@ type LeafCase struct {
 	// or the zero value when the default layer does not set the leaf), so
 	// "explicitly set to the default" must still beat the lower layers.
 	EqDef int `json:"eq_def,omitempty"`
+	// EmptyFile (set leaves, AutoSetToSlice on): the file assigns the leaf an
+	// explicitly empty list; the file layer's value is the empty set.
+	EmptyFile bool `json:"empty_file,omitempty"`
 }
 
 // RewLeaf is one leaf in a later version of the config file.
@@ -64,6 +67,7 @@ type RewLeaf struct {
 	In    bool `json:"in,omitempty"`
 	Bad   bool `json:"bad,omitempty"`
 	Alias bool `json:"alias,omitempty"`
+	Empty bool `json:"empty,omitempty"` // set leaves: this version assigns an explicitly empty list
 }
 
 // Rewrite is one later version of the config file and how it is put in place.
@@ -336,6 +340,25 @@ func genC18(watch bool) func(t *rapid.T) C18Case {
 				lc.Layers &^= bDefault // the struct default is the zero value
 			}
 		}
+		// set leaves: one in four has a non-empty default and a file that
+		// assigns the explicitly empty list (half of them with nothing above
+		// the file, so the empty set is what must be visible)
+		if !c.NoSetList {
+			for i := range td.leaves {
+				if td.leaves[i].kind != kSet || c.Leaves[i].EqDef != 0 {
+					continue
+				}
+				if rapid.IntRange(0, 3).Draw(t, "empty_file") != 3 {
+					continue
+				}
+				lc := &c.Leaves[i]
+				lc.Layers |= bDefault | bFile
+				lc.EmptyFile = true
+				if rapid.Bool().Draw(t, "empty_file_wins") {
+					lc.Layers &^= bEnv | bFlag
+				}
+			}
+		}
 		c.ArgRot = rapid.IntRange(0, 7).Draw(t, "arg_rot")
 
 		if watch && c.FileState == "valid" && !noPath {
@@ -360,6 +383,9 @@ func genC18(watch bool) func(t *rapid.T) C18Case {
 					}
 					if l.hasAlias() {
 						rl.Alias = rapid.Bool().Draw(t, "rw_alias")
+					}
+					if l.kind == kSet && !c.NoSetList && rl.In {
+						rl.Empty = rapid.IntRange(0, 4).Draw(t, "rw_empty") == 4
 					}
 					rw.Leaves[i] = rl
 				}
@@ -483,6 +509,9 @@ func validateCase(c C18Case, td *typeDef) string {
 		if lc.Seed < 1 || lc.Seed > 4000 || lc.Layers < 0 || lc.Layers > 15 {
 			return fmt.Sprintf("leaf %d seed/layers", i)
 		}
+		if lc.EmptyFile && (td.leaves[i].kind != kSet || c.NoSetList || lc.Layers&bFile == 0) {
+			return fmt.Sprintf("leaf %d empty_file", i)
+		}
 		if lc.EqDef != 0 {
 			l := &td.leaves[i]
 			if lc.EqDef != bFile && lc.EqDef != bEnv && lc.EqDef != bFlag {
@@ -508,6 +537,11 @@ func validateCase(c C18Case, td *typeDef) string {
 	for _, rw := range c.Rewrites {
 		if len(rw.Leaves) != len(td.leaves) {
 			return "rewrite leaf count"
+		}
+		for i, rl := range rw.Leaves {
+			if rl.Empty && (td.leaves[i].kind != kSet || c.NoSetList || !rl.In) {
+				return "rewrite empty list"
+			}
 		}
 		switch rw.Mech {
 		case "", "rename", "remove-rename", "remove-create", "truncate":
@@ -651,6 +685,9 @@ func execCase[T any, TP ez.ConfigWithConfigPath[T]](c C18Case, td *typeDef, bubb
 			return value{s: p.baseOf(gen)}
 		}
 		lc := c.Leaves[i]
+		if l.kind == kSet && ((gen == gFile && lc.EmptyFile) || (gen >= 4 && gen <= 6 && gen-4 < len(c.Rewrites) && c.Rewrites[gen-4].Leaves[i].Empty)) {
+			return value{elems: []string{}} // the explicitly empty list: the empty set
+		}
 		if lc.EqDef != 0 && gen >= gFile && gen <= gFlag && lc.EqDef == 1<<gen {
 			// this layer repeats what the defaults struct holds
 			if lc.Layers&bDefault == 0 {
@@ -1021,6 +1058,14 @@ func execCase[T any, TP ez.ConfigWithConfigPath[T]](c C18Case, td *typeDef, bubb
 			labels = append(labels, fmt.Sprintf("layer-equals-default:flag:argv-form=%d", lc.Form&3))
 		}
 	}
+	for i := range td.leaves {
+		if lc := c.Leaves[i]; lc.EmptyFile && !noPath && c.FileState == "valid" {
+			labels = append(labels, "file-assigns-empty-set-over-nonempty-default")
+			if lc.Layers&(bEnv|bFlag) == 0 {
+				labels = append(labels, "file-assigns-empty-set-over-nonempty-default:file-wins")
+			}
+		}
+	}
 	encName := map[string]string{"": "nil", "snake": "snake", "kebab": "kebab", "upper": "UPPER_SNAKE"}[c.Enc]
 	for i := range td.leaves {
 		if lc := c.Leaves[i]; td.leaves[i].hasAlias() && !noPath && c.FileState == "valid" && lc.Layers&bFile != 0 && lc.Alias&bFile != 0 {
@@ -1370,6 +1415,12 @@ func execCase[T any, TP ez.ConfigWithConfigPath[T]](c C18Case, td *typeDef, bubb
 			is, _, _, _ := fileLeaf(i, r)
 			if _, _, _, al := fileLeaf(i, r); is && al && td.leaves[i].hasAlias() {
 				labels = append(labels, "file-names-leaf-by-alias:encoder="+encName)
+			}
+			if is && c.Rewrites[r-1].Leaves[i].Empty {
+				labels = append(labels, "rewrite-assigns-empty-set")
+				if c.Leaves[i].Layers&(bEnv|bFlag) == 0 {
+					labels = append(labels, "rewrite-assigns-empty-set:file-wins")
+				}
 			}
 			if was && !is {
 				// the leaf must fall back to env / flag / default
@@ -1917,6 +1968,7 @@ const c18Rule = "static ez config types (flat with a bool; nested with aliases a
 	"(one leaf in five instead lets its top layer - flag, env or file - repeat exactly the value the defaults struct holds, generated or zero, while a lower non-default layer differs: an explicit value equal to the default must still win; one bool leaf, whose flag is also spelled bare -n / -n=false). " +
 	"Format json/yaml/toml/cue through the named per-format entry points, FileExtensionDecoderConfigEnvFlag with every extension it knows (.json .yaml .yml .toml .cue, also upper case), ConfigFileEnvFlag with a factory and ConfigFileEnvFlagDecoderFactoryParams, " +
 	"leaves with a dialsalias (tagged: conf_file/old_conf, port/listen_port; untagged, multi-word, Go camel case as ez's default DialsTagNameDecoder expects: MaxIdle/IdleLimit, DB.Retries/RetryBudget) are named by their primary key or by their alias - never both - independently in each file version, in the environment and on the command line; in the file the alias is spelled in the file's key convention as read off the unmodified tree (no encoder: the alias text as written; snake idle_limit, kebab idle-limit, UPPER_SNAKE IDLE_LIMIT) and counts as set by the file layer whichever name was used; " +
+	"with AutoSetToSlice on, one set leaf in four has a non-empty default and a file (initial, or a later version) that assigns it the explicitly empty list []: on the unmodified tree all four decoders then deliver the empty (non-nil) set, which beats the default like any other file value; " +
 	"crossed with Params.FlattenAnonymousFields on/off, FileFieldNameEncoder nil / snake / kebab / UPPER_SNAKE (untagged and embedded types) and DisableAutoSetToSlice on/off (sets then written as maps); the file layout of embedded leaves per format and option is written down in the harness as read off the unmodified tree " +
 	"(JSON and Cue promote them, yaml.v2 nests them under the lower-cased type name unless FlattenAnonymousFields promotes them, go-toml nests them under the type name, with an encoder every format nests them under the encoded type name except YAML with FlattenAnonymousFields); the path comes from default/env/flag (lower layers and the file itself name decoy files that exist with other content); " +
 	"file valid / missing / malformed / unknown extension / no path at all; flags through Params.FlagSource on a fresh FlagSet (3 in 4) or a fresh flag.CommandLine + os.Args (restored). " +
